@@ -4,6 +4,7 @@
 use std::io::{BufRead, Write};
 
 mod pure;
+mod rx;
 mod mtu;
 mod txring;
 mod util;
@@ -13,6 +14,7 @@ pub struct St {
     pub rtte: librqbit_utp::verif::RttEstimator,
     pub mtu: librqbit_utp::mtu::SegmentSizes,
     pub tx: txring::TxSt,
+    pub rx: rx::RxSt,
 }
 
 fn step(st: &mut St, line: &str) -> String {
@@ -23,6 +25,7 @@ fn step(st: &mut St, line: &str) -> String {
         Some((&"wire", args)) => wire::step_wire(args),
         Some((&"mtu", args)) => mtu::step_mtu(&mut st.mtu, args),
         Some((&"tx", args)) => txring::step_txring(&mut st.tx, args),
+        Some((&"rx", args)) => rx::step_rx(&mut st.rx, args),
         Some((&"rtte", args)) => pure::step_rtte(&mut st.rtte, args),
         _ => "bad-op".into(),
     }
@@ -38,6 +41,7 @@ fn main() {
         rtte: Default::default(),
         mtu: librqbit_utp::mtu::SegmentSizes::new(Default::default()),
         tx: txring::TxSt::new(16),
+        rx: rx::RxSt::new(64, 8),
     };
     for line in stdin.lock().lines() {
         let line = line.unwrap();
